@@ -1174,6 +1174,31 @@ def _rand_c04(rng, tier, sc0):
     return out
 
 
+def _race_c04(rng, tier, sc0):
+    """FlwShut.tla on the code: the writer thread is held at its hook point, a backlog is logged, then 2-3 threads call
+    shutdown() on clones of the handle at the same time."""
+    out = []
+    for i in range(24 if tier == "quick" else 480):
+        mode = "async" if i % 4 != 3 else rng.choice(["buf", "direct", "bufflush"])
+        c = {"naming": rng.choice(["Num", "NumD", "Ts", "TsD"]), "rot": i % 3 != 0, "size": rng.choice([40, 500]), "mode": mode,
+             "crlf": False, "bg": i % 5 == 0}
+        if mode == "async":
+            c.update({"pool": rng.choice([1, 4, 50]), "mcapa": rng.choice([8, 64, 200]), "flush_ms": rng.choice([0, 0, 1])})
+        else:
+            c.update({"cap": rng.choice([16, 256]), "flush_ms": 1})
+        if i % 4 == 1:
+            c["via"] = "flw"
+        steps = [{"op": "Start", "append": False}]
+        steps += [{"op": "Log", "len": rng.choice([9, 12, 63])} for _ in range(rng.choice([0, 1, 3]))]
+        steps.append({"op": "HoldWriter"})
+        steps += [{"op": "Log", "len": rng.choice([9, 12, 21, 65, 300])} for _ in range(rng.choice([1, 3, 10, 200]))]
+        steps.append({"op": "ShutdownRace", "n": rng.choice([2, 2, 3])})
+        steps.append({"op": "Stop", "shutdown": rng.random() < 0.5})
+        out.append({"sc": sc0 + i, "cfg": c, "t0": 1000, "steps": steps, "origin": "race:FlwShut", "obs": "sync",
+                    "tag": {"clone_dropped": False}})
+    return out
+
+
 def C04(tier, seed):
     import json
     import os
@@ -1200,6 +1225,21 @@ def C04(tier, seed):
             transitions += r["transitions"]
             C.log(f"[C04] TLC {cfg}: {r['states']} distinct states; AfterShutdown, AfterFlush, CloneDropKeepsWriter, C03_* and "
                   f"the liveness property ShutdownReturns hold (intended design, all interleavings)")
+        # several callers of shutdown() at the same time (async writer): as coded the join happens under the mutex
+        scfg = "MCFlwShut_q.cfg" if tier == "quick" else "MCFlwShut_t.cfg"
+        r = C.run_tlc("MCFlwShut.tla", os.path.join(C.SPEC, scfg), os.path.join(wd, "mc-shut"), workers=4, timeout=900)
+        if r["violated"] or r["deadlock"]:
+            raise C.ToolError(f"FlwShut/{scfg} violates {r['violated']} in the design as coded")
+        mc_stats.append({"cfg": scfg, "states": r["states"], "transitions": r["transitions"], "wall_s": r["wall_s"]})
+        states += r["states"]
+        transitions += r["transitions"]
+        rm = C.run_tlc("MCFlwShut.tla", os.path.join(C.SPEC, "MCFlwShut_mut.cfg"), os.path.join(wd, "mc-shut-mut"), workers=1,
+                       timeout=300)
+        if "AfterShutdownAllPresent" not in (rm["violated"] or []):
+            raise C.ToolError("FlwShut: the variant that joins outside the mutex must violate AfterShutdownAllPresent")
+        C.log(f"[C04] TLC {scfg}: {r['states']} distinct states; 2-3 concurrent callers of shutdown(): AfterShutdownAllPresent and "
+              f"the liveness property ShutdownReturns hold as coded (join under the mutex); the variant joining outside the "
+              f"mutex violates AfterShutdownAllPresent (sanity of the invariant)")
         r = C.run_tlc("MCFlwConc.tla", os.path.join(C.SPEC, "MCFlwConc_asis.cfg"), os.path.join(wd, "mc-asis"), workers=4, timeout=600)
         asis = r["violated"]
         C.log(f"[C04] TLC MCFlwConc_asis.cfg (as coded): violated invariants: {asis or 'none'}")
@@ -1227,6 +1267,8 @@ def C04(tier, seed):
             scens += new
             nmodel += len(new)
         scens += _rand_c04(rng, tier, len(scens) + 1)
+        # (each takes 0.4 s: first in the list = spread evenly over the shards)
+        scens = _race_c04(rng, tier, len(scens) + 1) + scens
         res = C.run_sharded(pid, "MonC04", scens, wd)
         C.log(f"[C04] executed {res['scenarios']} scenarios / {res['events']} events ({nmodel} application-level histories from "
               f"TLC); observation immediately after each call; judged by MonC04.tla in {res['wall_s']}s; "
@@ -1323,6 +1365,18 @@ def C03(tier, seed):
             c["crlf"] = False
             c["size"] = rng.choice([100, 500, 4000])
             c["bg"] = rng.random() < 0.3
+            if i % 4 == 1:
+                # every rotated file is compressed at once, none is ever removed (limit far away): the output is the
+                # decompressed files plus the current one
+                c["m"] = 100000
+                c["bg"] = i % 8 == 5
+                if i % 8 == 1:
+                    # the cleanup runs in the logging thread right after the rotation, while other threads keep the
+                    # buffer of the writer filled
+                    c["mode"] = rng.choice(["buf", "bufflush"])
+                    c["naming"] = rng.choice(["Num", "Ts", "NumD"])
+                    c.pop("fmt", None)
+                    c.pop("cur", None)
             if c["mode"] == "async":
                 c.update({"pool": rng.choice([1, 2, 50]), "mcapa": rng.choice([8, 32, 200]), "flush_ms": rng.choice([0, 1])})
             if c["mode"] == "bufflush":
